@@ -545,6 +545,32 @@ def kind_table(P: Project, R: Report) -> None:
                  f"on the way into the envelope the payload goes through `{bad[0].split(':', 1)[1] if bad else ''}`: a JSON encode/decode round trip changes values the codecs do not preserve (integers beyond 64 bits become floats under the fast backend), so parsing the emitted form no longer gives back the payload",
                  sample=f"R6 {f.qual}: payload handed through")
     R.need(n_b >= 6, f"only {n_b} builder paths found (8 builders confirmed by hand)")
+    # … and the caller's id: whatever id a builder is given (0 and "" included) is the id of the envelope; one is made up only
+    # for a caller that gave none
+    n_id = 0
+    for f in sorted(P.funcs_in(A.MOD_JSONRPC), key=lambda f: f.fq):
+        if not f.name.startswith("create_") or f.parent is not None or "id" not in f.params():
+            continue
+
+        def iev(call, st, an, f=f):
+            k = kwarg(call, "id")
+            if k is None or kwarg(call, "jsonrpc") is None:
+                return None
+            return "envid:" + subst_text(k, st)
+
+        ia, io = run_paths(f.node, event_of=iev, fallible=False)
+        for st, node in io.ret:
+            evs = [e[len("envid:"):] for e in st.events if e.startswith("envid:")]
+            if not evs:
+                continue
+            n_id += 1
+            given = "id is not None" in st.lits or "id is None" not in st.lits
+            if "id is None" in st.lits:
+                continue  # the caller gave none: any fresh id will do (its origin is C01/C18's subject)
+            R.ob("R6", f"{f.qual}: an id the caller gave is the id of the envelope", all(e == "id" for e in evs), f"{f.module.rel}:{node.lineno}",
+                 f"on a path where the caller's id is not None the envelope gets `{evs[0][:60]}` (path: {sorted(l[:40] for l in st.lits)[:4]}): a legal id that is falsy — 0 or \"\" — is replaced by a made-up one, so the request the caller gets back (and the response it waits for) carries another id, of another JSON type",
+                 sample=f"R6 {f.qual}: id passed through unless None")
+    R.need(n_id >= 2, f"only {n_id} builder paths with an id found")
 
     # envelope classes: configuration that rewrites strings changes ids and method names on the way in
     from ..models import config_findings
